@@ -167,6 +167,8 @@ class Interp:
             return c.card > 0
         if isinstance(v, VElem):
             return sym.f_truthy(v.t)
+        if isinstance(v, VRef) and v.cls and v.cls.endswith('?'):
+            return v.t != sym.c_none_obj        # optional reference: None is the distinguished null object
         if isinstance(v, (VObj, VRef, VCallable, VFunc, VBound, VBuiltin, VAw, VClass)):
             return z3.BoolVal(True)
         if isinstance(v, VMdEntry):
@@ -253,6 +255,10 @@ class Interp:
             return self.as_elem(v)
         if kind is sym.K_REAL and isinstance(v, VInt):
             return z3.ToReal(v.t)
+        if kind.name == 'optloop' and isinstance(v, VNone):
+            return sym.c_none_obj
+        if kind is sym.K_ELEM and isinstance(v, VBool):
+            return z3.If(v.t, sym.str_elem('True'), sym.str_elem('False'))
         if isinstance(v, (VSeq, VList)):
             t, k = self.seq_term(v)
             if kind.elem is k:
@@ -270,6 +276,8 @@ class Interp:
             o = b if isinstance(a, VNone) else a
             if isinstance(o, VElem):
                 return o.t == sym.c_none_elem
+            if isinstance(o, VRef) and o.cls and o.cls.endswith('?'):
+                return o.t == sym.c_none_obj
             return z3.BoolVal(False)
         if isinstance(a, VStr) and isinstance(b, VStr):
             return z3.BoolVal(a.s == b.s)
@@ -286,6 +294,8 @@ class Interp:
             return self.num(a, True) == self.num(b, True)
         if isinstance(a, VBool) and isinstance(b, VBool):
             return a.t == b.t
+        if (isinstance(a, VBool) and isinstance(b, VElem)) or (isinstance(a, VElem) and isinstance(b, VBool)):
+            return self.as_elem(a) == self.as_elem(b)
         if isinstance(a, VObj) and isinstance(b, VObj):
             return z3.BoolVal(a.loc == b.loc)
         if isinstance(a, VObj) or isinstance(b, VObj):
